@@ -3,7 +3,7 @@
 From Coq Require Import List NArith String Ascii Bool Lia Arith Sorted.
 From V Require Import Base.Util Base.Strings Base.Result Model.Registry Model.Settings Model.Subst
   Model.TypePath Model.Derives Model.Generate Model.Emit Model.Equal Model.WellFormed Checkers.Parse
-  Checkers.Sem Model.Unparse Proofs.TpMap Proofs.ParseEq Proofs.ParseTy Proofs.ParseItem Proofs.ParseMod.
+  Checkers.Sem Model.Unparse Model.UnparseClosed Proofs.TpMap Proofs.ParseEq Proofs.ParseTy Proofs.ParseItem Proofs.ParseMod.
 Import ListNotations.
 Open Scope nat_scope. Open Scope string_scope. Open Scope list_scope.
 
@@ -30,4 +30,285 @@ Proof.
   unfold parse_one_item.
   pose proof (item_parses s ir toks H Hp (S (List.length toks)) [] (le_n _) (fun _ _ => eq_refl)) as HP.
   rewrite app_nil_r in HP. rewrite HP. reflexivity.
+Qed.
+
+(** ** traversals of parsed types *)
+Lemma pty_ok_args aa :
+  (fix go2 (p : list pty) := match p with [] => true | u :: p' => pty_ok u && go2 p' end) aa =
+  forallb pty_ok aa.
+Proof. reflexivity. Qed.
+
+Lemma pty_ok_PPath l segs :
+  pty_ok (PPath l segs) = forallb (fun sa => forallb pty_ok (snd sa)) segs.
+Proof.
+  cbn [pty_ok]. induction segs as [|[n aa] segs IH]; [reflexivity|].
+  cbn [forallb snd]. rewrite <- IH. reflexivity.
+Qed.
+
+Lemma pty_ok_PTuple xs : pty_ok (PTuple xs) = forallb pty_ok xs.
+Proof. cbn [pty_ok]. apply pty_ok_args. Qed.
+
+Lemma pty_paths_args aa :
+  (fix go2 (p : list pty) := match p with [] => [] | u :: p' => pty_paths u ++ go2 p' end) aa =
+  flat_map pty_paths aa.
+Proof. reflexivity. Qed.
+
+Lemma pty_paths_PPath l segs :
+  pty_paths (PPath l segs) = (l, segs) :: flat_map (fun sa => flat_map pty_paths (snd sa)) segs.
+Proof.
+  cbn [pty_paths]. f_equal. induction segs as [|[n aa] segs IH]; [reflexivity|].
+  cbn [flat_map snd]. rewrite <- IH. reflexivity.
+Qed.
+
+Lemma pty_paths_PTuple xs : pty_paths (PTuple xs) = flat_map pty_paths xs.
+Proof. cbn [pty_paths]. apply pty_paths_args. Qed.
+
+Lemma pty_ok_mk l pre x args :
+  pty_ok (PPath l (map seg0 pre ++ [(x, args)])) = forallb pty_ok args.
+Proof.
+  rewrite pty_ok_PPath, forallb_app. cbn [forallb snd]. rewrite andb_true_r.
+  replace (forallb (fun sa : string * list pty => forallb pty_ok (snd sa)) (map seg0 pre)) with true;
+    [reflexivity|].
+  symmetry. apply forallb_forall. intros sa Hin. apply in_map_iff in Hin as (y & <- & _). reflexivity.
+Qed.
+
+Lemma pty_paths_mk l pre x args :
+  pty_paths (PPath l (map seg0 pre ++ [(x, args)])) =
+  (l, map seg0 pre ++ [(x, args)]) :: flat_map pty_paths args.
+Proof.
+  rewrite pty_paths_PPath. f_equal. rewrite flat_map_app. cbn [flat_map snd]. rewrite app_nil_r.
+  replace (flat_map (fun sa : string * list pty => flat_map pty_paths (snd sa)) (map seg0 pre)) with
+    (@nil (bool * list (string * list pty))); [reflexivity|].
+  symmetry. induction pre as [|y pre IH]; [reflexivity|]. cbn [map flat_map seg0 snd app]. exact IH.
+Qed.
+
+Definition head_path (t : pty) : option (bool * list (string * list pty)) :=
+  match t with PPath l segs => Some (l, segs) | _ => None end.
+
+Lemma mk_ppath_cases o tail args :
+  mk_ppath o tail args = PBad \/
+  exists l pre x, mk_ppath o tail args = PPath l (map seg0 pre ++ [(x, args)]) /\
+                  exists segs, o = Some (l, segs) /\ segs ++ tail = pre ++ [x].
+Proof.
+  destruct o as [[l segs]|]; [|left; reflexivity]. unfold mk_ppath.
+  destruct (rev (segs ++ tail)) as [|x pre] eqn:E; [left; reflexivity|].
+  right. exists l, (rev pre), x. split; [reflexivity|]. exists segs. split; [reflexivity|].
+  rewrite <- (rev_involutive (segs ++ tail)), E. reflexivity.
+Qed.
+
+Lemma mk_ppath_paths o tail args ls :
+  In ls (pty_paths (mk_ppath o tail args)) ->
+  head_path (mk_ppath o tail args) = Some ls \/ In ls (flat_map pty_paths args).
+Proof.
+  destruct (mk_ppath_cases o tail args) as [E|(l & pre & x & E & _)]; rewrite E.
+  - intros [].
+  - rewrite pty_paths_mk. intros [<-|H]; [left; reflexivity|right; exact H].
+Qed.
+
+(** every path node of [ir_pty t] is the head of [ir_pty x] for a sub-path [x] of [t] *)
+Lemma subpaths_trans x y t : In x (subpaths y) -> In y (subpaths t) -> In x (subpaths t).
+Proof.
+  revert x y. induction t as [p|ptoks ps IH|o IH|n o IH|es IH|p|i f c IH|o st b IHo IHst] using tpath_ind';
+    intros x y Hx Hy; cbn [subpaths] in Hy; destruct Hy as [<-|Hy]; try exact Hx; try destruct Hy;
+    cbn [subpaths]; right.
+  - apply in_flat_map in Hy as (c & Hc & Hy). apply in_flat_map. exists c. split; [exact Hc|].
+    rewrite Forall_forall in IH. eapply IH; eauto.
+  - eapply IH; eauto.
+  - eapply IH; eauto.
+  - apply in_flat_map in Hy as (c & Hc & Hy). apply in_flat_map. exists c. split; [exact Hc|].
+    rewrite Forall_forall in IH. eapply IH; eauto.
+  - eapply IH; eauto.
+  - apply in_app_or in Hy as [Hy|Hy]; apply in_or_app; [left; eapply IHo|right; eapply IHst]; eauto.
+Qed.
+
+Lemma subpaths_refl t : In t (subpaths t).
+Proof. destruct t; left; reflexivity. Qed.
+
+Lemma paths_from_subterms alloc : forall t ls,
+  In ls (pty_paths (ir_pty alloc t)) ->
+  exists x, In x (subpaths t) /\ head_path (ir_pty alloc x) = Some ls.
+Proof.
+  induction t as [p|ptoks ps IH|o IH|n o IH|es IH|p|i f c IH|o st b IHo IHst] using tpath_ind';
+    intros ls Hin.
+  - cbn [ir_pty param_pty] in Hin. destruct Hin as [<-|[]]. exists (TParam p). split; [left; reflexivity|reflexivity].
+  - change (ir_pty alloc (TPath ptoks ps)) with (mk_ppath (path_segs ptoks) [] (map (ir_pty alloc) ps)) in Hin.
+    apply mk_ppath_paths in Hin as [H|H].
+    + exists (TPath ptoks ps). split; [apply subpaths_refl|exact H].
+    + apply in_flat_map in H as (a & Ha & H). apply in_map_iff in Ha as (c & <- & Hc).
+      rewrite Forall_forall in IH. destruct (IH c Hc ls H) as (x & Hx & Hh).
+      exists x. split; [|exact Hh]. cbn [subpaths]. right. apply in_flat_map. eauto.
+  - change (ir_pty alloc (TVec o)) with (mk_ppath (alloc_segs alloc) ["vec"; "Vec"] [ir_pty alloc o]) in Hin.
+    apply mk_ppath_paths in Hin as [H|H].
+    + exists (TVec o). split; [apply subpaths_refl|exact H].
+    + cbn [flat_map] in H. rewrite app_nil_r in H. destruct (IH ls H) as (x & Hx & Hh).
+      exists x. split; [right; exact Hx|exact Hh].
+  - cbn [ir_pty pty_paths] in Hin. destruct (IH ls Hin) as (x & Hx & Hh).
+    exists x. split; [right; exact Hx|exact Hh].
+  - change (ir_pty alloc (TTuple es)) with (PTuple (map (ir_pty alloc) es)) in Hin.
+    rewrite pty_paths_PTuple in Hin.
+    apply in_flat_map in Hin as (a & Ha & H). apply in_map_iff in Ha as (c & <- & Hc).
+    rewrite Forall_forall in IH. destruct (IH c Hc ls H) as (x & Hx & Hh).
+    exists x. split; [|exact Hh]. cbn [subpaths]. right. apply in_flat_map. eauto.
+  - exists (TPrim p). split; [apply subpaths_refl|].
+    cbn [ir_pty] in *. destruct p; cbn [prim_ident] in *;
+      try (destruct Hin as [<-|[]]; reflexivity); try destruct Hin.
+    apply mk_ppath_paths in Hin as [H|[]]. exact H.
+  - cbn [ir_pty] in Hin. destruct f.
+    + destruct (IH ls Hin) as (x & Hx & Hh). exists x. split; [right; exact Hx|exact Hh].
+    + apply mk_ppath_paths in Hin as [H|H].
+      * exists (TCompact i false c). split; [apply subpaths_refl|exact H].
+      * cbn [flat_map] in H. rewrite app_nil_r in H. destruct (IH ls H) as (x & Hx & Hh).
+        exists x. split; [right; exact Hx|exact Hh].
+  - cbn [ir_pty] in Hin. apply mk_ppath_paths in Hin as [H|H].
+    + exists (TBitVec o st b). split; [apply subpaths_refl|exact H].
+    + cbn [flat_map] in H. rewrite app_nil_r in H. apply in_app_or in H as [H|H].
+      * destruct (IHst ls H) as (x & Hx & Hh). exists x. split; [|exact Hh].
+        cbn [subpaths]. right. apply in_or_app. right; exact Hx.
+      * destruct (IHo ls H) as (x & Hx & Hh). exists x. split; [|exact Hh].
+        cbn [subpaths]. right. apply in_or_app. left; exact Hx.
+Qed.
+
+Lemma mk_ppath_some l segs tail args :
+  segs ++ tail <> [] ->
+  exists pre x, segs ++ tail = pre ++ [x] /\
+                mk_ppath (Some (l, segs)) tail args = PPath l (map seg0 pre ++ [(x, args)]).
+Proof.
+  intros Hne. destruct (exists_last Hne) as (pre & x & E). exists pre, x. split; [exact E|].
+  apply mk_ppath_snoc. exact E.
+Qed.
+
+Lemma mk_ppath_ok l segs tail args :
+  segs ++ tail <> [] -> forallb pty_ok args = true -> pty_ok (mk_ppath (Some (l, segs)) tail args) = true.
+Proof.
+  intros Hne Ha. destruct (mk_ppath_some l segs tail args Hne) as (pre & x & _ & ->).
+  rewrite pty_ok_mk. exact Ha.
+Qed.
+
+Lemma mk_ppath_in l segs tail args ls :
+  segs ++ tail <> [] -> In ls (flat_map pty_paths args) ->
+  In ls (pty_paths (mk_ppath (Some (l, segs)) tail args)).
+Proof.
+  intros Hne Ha. destruct (mk_ppath_some l segs tail args Hne) as (pre & x & _ & ->).
+  rewrite pty_paths_mk. right. exact Ha.
+Qed.
+
+Lemma app_tail_ne {T : Type} (a b : list T) : b <> [] -> a ++ b <> [].
+Proof. destruct a; [trivial|discriminate]. Qed.
+
+Section PtyOk.
+  Variable alloc : tokens.
+  Hypothesis Halloc : alloc_okb alloc = true.
+
+  Lemma alloc_some : exists al asegs, alloc_segs alloc = Some (al, asegs).
+  Proof.
+    unfold alloc_okb in Halloc. destruct (alloc_segs alloc) as [[al asegs]|]; [eauto|discriminate].
+  Qed.
+
+  Lemma ir_pty_ok : forall t,
+    tp_plain t = true -> tokenizable t = true -> pty_ok (ir_pty alloc t) = true.
+  Proof.
+    destruct alloc_some as (al & asegs & Ea).
+    induction t as [p|ptoks ps IH|o IH|n o IH|es IH|p|i f c IH|o st b IHo IHst] using tpath_ind';
+      intros Hp Ht; cbn [tp_plain tokenizable] in Hp, Ht.
+    - reflexivity.
+    - apply andb_prop in Hp as [Hpp Hps]. unfold plain_path in Hpp.
+      destruct (path_segs ptoks) as [[l segs]|] eqn:Es; [|discriminate].
+      destruct (path_segs_spec _ _ _ Es) as (_ & Hne & _).
+      change (ir_pty alloc (TPath ptoks ps)) with (mk_ppath (path_segs ptoks) [] (map (ir_pty alloc) ps)).
+      rewrite Es. apply mk_ppath_ok; [rewrite app_nil_r; exact Hne|].
+      apply forallb_forall. intros a Ha. apply in_map_iff in Ha as (c & <- & Hc).
+      rewrite Forall_forall in IH. rewrite forallb_forall in Hps, Ht. apply IH; auto.
+    - cbn [ir_pty]. rewrite Ea. apply mk_ppath_ok; [apply app_tail_ne; discriminate|].
+      cbn [forallb]. rewrite IH by assumption. reflexivity.
+    - cbn [ir_pty pty_ok]. apply IH; assumption.
+    - change (ir_pty alloc (TTuple es)) with (PTuple (map (ir_pty alloc) es)). rewrite pty_ok_PTuple.
+      apply forallb_forall. intros a Ha. apply in_map_iff in Ha as (c & <- & Hc).
+      rewrite Forall_forall in IH. rewrite forallb_forall in Hp, Ht. apply IH; auto.
+    - cbn [ir_pty]. destruct p; cbn [is256 negb] in Ht; try discriminate; try reflexivity.
+      rewrite Ea. apply mk_ppath_ok; [apply app_tail_ne; discriminate|reflexivity].
+    - apply andb_prop in Hp as [Hpc Hpi]. apply andb_prop in Ht as [Hti _]. cbn [ir_pty].
+      destruct f; [apply IH; assumption|]. cbn [orb] in Hpc. unfold plain_path in Hpc.
+      destruct (path_segs c) as [[l segs]|] eqn:Es; [|discriminate].
+      destruct (path_segs_spec _ _ _ Es) as (_ & Hne & _).
+      apply mk_ppath_ok; [rewrite app_nil_r; exact Hne|]. cbn [forallb]. rewrite IH by assumption. reflexivity.
+    - apply andb_prop in Hp as [Hp Hpst]. apply andb_prop in Hp as [Hpb Hpo].
+      apply andb_prop in Ht as [Hto Htst]. cbn [ir_pty]. unfold plain_path in Hpb.
+      destruct (path_segs b) as [[l segs]|] eqn:Es; [|discriminate].
+      destruct (path_segs_spec _ _ _ Es) as (_ & Hne & _).
+      apply mk_ppath_ok; [rewrite app_nil_r; exact Hne|]. cbn [forallb].
+      rewrite IHo, IHst by assumption. reflexivity.
+  Qed.
+
+  Lemma param_in_paths : forall t,
+    tp_plain t = true -> forall p, In p (parent_params t) ->
+    In (false, [(tpi_name p, [])]) (pty_paths (ir_pty alloc t)).
+  Proof.
+    destruct alloc_some as (al & asegs & Ea).
+    induction t as [q|ptoks ps IH|o IH|n o IH|es IH|q|i f c IH|o st b IHo IHst] using tpath_ind';
+      intros Hp p Hin; cbn [tp_plain] in Hp.
+    - cbn [parent_params] in Hin. destruct Hin as [<-|[]]. left. reflexivity.
+    - apply andb_prop in Hp as [Hpp Hps]. unfold plain_path in Hpp.
+      destruct (path_segs ptoks) as [[l segs]|] eqn:Es; [|discriminate].
+      destruct (path_segs_spec _ _ _ Es) as (_ & Hne & _).
+      change (ir_pty alloc (TPath ptoks ps)) with (mk_ppath (path_segs ptoks) [] (map (ir_pty alloc) ps)).
+      rewrite Es. apply mk_ppath_in; [rewrite app_nil_r; exact Hne|].
+      change (parent_params (TPath ptoks ps)) with (flat_map parent_params ps) in Hin.
+      apply in_flat_map in Hin as (c & Hc & Hin). apply in_flat_map. exists (ir_pty alloc c).
+      split; [apply in_map; exact Hc|]. rewrite Forall_forall in IH. rewrite forallb_forall in Hps.
+      apply IH; auto.
+    - cbn [ir_pty]. rewrite Ea. apply mk_ppath_in; [apply app_tail_ne; discriminate|].
+      cbn [flat_map]. rewrite app_nil_r. apply IH; assumption.
+    - cbn [ir_pty pty_paths]. apply IH; assumption.
+    - change (ir_pty alloc (TTuple es)) with (PTuple (map (ir_pty alloc) es)). rewrite pty_paths_PTuple.
+      change (parent_params (TTuple es)) with (flat_map parent_params es) in Hin.
+      apply in_flat_map in Hin as (c & Hc & Hin). apply in_flat_map. exists (ir_pty alloc c).
+      split; [apply in_map; exact Hc|]. rewrite Forall_forall in IH. rewrite forallb_forall in Hp.
+      apply IH; auto.
+    - destruct Hin.
+    - apply andb_prop in Hp as [Hpc Hpi]. cbn [parent_params] in Hin. cbn [ir_pty].
+      destruct f; [apply IH; assumption|]. cbn [orb] in Hpc. unfold plain_path in Hpc.
+      destruct (path_segs c) as [[l segs]|] eqn:Es; [|discriminate].
+      destruct (path_segs_spec _ _ _ Es) as (_ & Hne & _).
+      apply mk_ppath_in; [rewrite app_nil_r; exact Hne|]. cbn [flat_map]. rewrite app_nil_r.
+      apply IH; assumption.
+    - apply andb_prop in Hp as [Hp Hpst]. apply andb_prop in Hp as [Hpb Hpo].
+      cbn [parent_params] in Hin. cbn [ir_pty]. unfold plain_path in Hpb.
+      destruct (path_segs b) as [[l segs]|] eqn:Es; [|discriminate].
+      destruct (path_segs_spec _ _ _ Es) as (_ & Hne & _).
+      apply mk_ppath_in; [rewrite app_nil_r; exact Hne|]. cbn [flat_map]. rewrite app_nil_r.
+      apply in_or_app. apply in_app_or in Hin as [Hin|Hin]; [right; apply IHo|left; apply IHst]; assumption.
+  Qed.
+End PtyOk.
+
+(** ** the field types of a parsed item *)
+Definition phantom_list (unused : list tparam_ir) : list pty :=
+  match phantom_pty unused with Some p => [p] | None => [] end.
+
+Lemma variant_body_tys s k codec :
+  map pf_ty (body_fields (variant_body s k codec)) = map (field_pty s) (ckind_fields k).
+Proof.
+  destruct k as [|fs|fs]; cbn [variant_body body_fields ckind_fields map]; [reflexivity| |];
+    rewrite !map_map; reflexivity.
+Qed.
+
+Lemma struct_body_tys s k unused codec :
+  map pf_ty (body_fields (struct_body s k unused codec)) =
+  map (field_pty s) (ckind_fields k) ++ phantom_list unused.
+Proof.
+  unfold phantom_list, struct_body, marker_fields.
+  destruct k as [|fs|fs]; destruct (phantom_pty unused) as [ph|];
+    cbn [body_fields ckind_fields map app]; try reflexivity;
+    rewrite ?map_app, !map_map; cbn [map pf_ty]; rewrite ?app_nil_r; reflexivity.
+Qed.
+
+Lemma item_field_types_eq s ir :
+  item_field_types (item_of_ir s ir) =
+  map (field_pty s) (kind_fields (ti_kind ir)) ++ phantom_list (ti_unused ir).
+Proof.
+  unfold item_field_types, item_of_ir. destruct (ti_kind ir) as [c|name docs vs]; cbn [pi_body pi_variants].
+  - cbn [flat_map kind_fields]. rewrite app_nil_r. apply struct_body_tys.
+  - cbn [body_fields map app kind_fields]. rewrite flat_map_app. f_equal.
+    + induction vs as [|ic vs IH]; [reflexivity|]. cbn [map flat_map]. rewrite map_app, <- IH. f_equal.
+      unfold variant_of. cbn [pv_body]. apply variant_body_tys.
+    + unfold ignore_variants, phantom_list. destruct (phantom_pty (ti_unused ir)); reflexivity.
 Qed.
